@@ -41,7 +41,7 @@ from __future__ import annotations
 from fractions import Fraction as F
 
 from mc import env  # noqa  (first: puts the explored tree on sys.path)
-from mc.kernel import StateFamily, HarnessError, h64
+from mc.kernel import StateFamily, HarnessError, CaseTimeout, h64, exc_disc, innermost_ttconv_frame
 from mc import ref608dec as R6
 
 import ttconv.scc.reader as scc_reader
@@ -1006,15 +1006,23 @@ def _features(history, idx, dev=frozenset()):
   ck = tok_kind(cul)
   tokclass = {"Tab": "char", "Tc": "char", "Td_": "char+blank", "T_e": "blank+char", "S": "char", "X": "char"}.get(base_tok(cul), ck)
   erased = "n"                       # has the display been erased (EDM) since this caption style was entered?
+  hist = set()                       # mid-row codes / backspaces on the current row since it was opened
   cur_style = None
   for t in history[:idx]:
     b = base_tok(t)
+    k = tok_kind(t)
     if b in STYLE_START:
       if STYLE_START[b] != cur_style:
         erased = "n"
       cur_style = STYLE_START[b]
+      hist.clear()
     elif b == "EDM":
       erased = "y"
+    elif k in ("PAC", "CR", "EOC"):
+      hist.clear()
+    elif k in ("MID", "BS"):
+      hist.add(k)
+  erased += ",hist=" + ("+".join(sorted(hist)) or "-")
   rowstate = "none"
   if d.mode is not None:
     mem = d.nm if d.mode == "pop" else d.dm
@@ -1034,6 +1042,10 @@ def _features(history, idx, dev=frozenset()):
       rowstate = "append"
     else:
       rowstate = "gap"
+  if ck == "CR" and d.mode == "roll":
+    # is there text directly before the cursor (the reader's "current text element")?
+    left = d.dm[d.row - 1][d.col - 1] if d.col > 0 else None
+    rowstate += ",seg=" + ("text" if left is not None and left[0] != " " else "empty")
   return p, ck, tokclass, erased, rowstate
 
 
@@ -1147,7 +1159,15 @@ def _mk_family(name, prof, depth):
     if not _in_worker():
       # replay / shrinking (parent process): judge exactly this history
       if history:
-        report(acc, history, evaluate(history, prof))
+        try:
+          report(acc, history, evaluate(history, prof))
+        except HarnessError:
+          raise
+        except Exception as e:  # pylint: disable=broad-except
+          if innermost_ttconv_frame(e.__traceback__) is None:
+            raise
+          acc.violation("C08.crash", exc_disc(e), {"history": history, "scc": Rendered(history, prof).text()},
+                        observed=repr(e)[:300], note="exception escaped from to_model for a protocol-conforming stream")
       return []
     # search (pool worker): the state itself was judged when it was generated as a successor
     if len(history) >= depth:
@@ -1162,7 +1182,18 @@ def _mk_family(name, prof, depth):
         acc.case("line-break", nontrivial=False)
         succ.append((t, ("nl", p2.key(), p2.dec.key(), _parent_proj(history, prof))))
         continue
-      out = evaluate(h2, prof)
+      try:
+        out = evaluate(h2, prof)
+      except (HarnessError, CaseTimeout):
+        raise
+      except Exception as e:  # pylint: disable=broad-except
+        if innermost_ttconv_frame(e.__traceback__) is None:
+          raise
+        # the property allows no exception for a protocol-conforming stream; the successor cannot be explored further
+        acc.violation("C08.crash", exc_disc(e), {"history": h2, "scc": Rendered(h2, prof).text()}, observed=repr(e)[:300],
+                      note="exception escaped from to_model for a protocol-conforming stream")
+        acc.case("crash", nontrivial=True, key=Rendered(h2, prof).text())
+        continue
       report(acc, h2, out)
       acc.case(out.klass + ("|viol" if out.violations else ""), nontrivial=out.nontrivial, key=out.text)
       if len(h2) == 4 and t == "Tab":
